@@ -82,9 +82,9 @@ fn case_strategy() -> BoxedStrategy<Case> {
         .prop_flat_map(|kind| {
             (
                 Just(kind),
-                proptest::collection::vec(delivery_strategy(kind), 1..10),
-                proptest::collection::vec(prop_oneof![3 => Just(false), 1 => Just(true)], 10),
-                proptest::collection::vec(any::<u16>(), 0..24),
+                proptest::collection::vec(delivery_strategy(kind), 1..vh_core::depth(10, 26)),
+                proptest::collection::vec(prop_oneof![3 => Just(false), 1 => Just(true)], 26),
+                proptest::collection::vec(any::<u16>(), 0..vh_core::depth(24, 64)),
             )
         })
         .prop_map(|(kind, deliveries, overlap, sched)| Case { kind, deliveries, overlap, sched })
